@@ -109,6 +109,11 @@ func init() {
 			c.guard("C03.4", func() { ruleValueOrError(c, "C03.4") })
 			c.guard("C03.5", func() { ruleResetNeverSuccess(c, "C03.5"); ruleTerminalErrorIsStatus(c, "C03.5") })
 			c.guard("C03.6", func() { ruleSingleWriter(c, "C03.6"); ruleTrailerBeforeUnregister(c, "C03.6") })
+			c.guard("C03.7", func() {
+				// the final status already buffered for a call is not raced by anything but the caller's own context: a wait
+				// that also selects on the connection's context can return the transport error instead of the status
+				ruleWaitingEscapable(c, "C03.7")
+			})
 		},
 	})
 }
